@@ -18,7 +18,11 @@ def run(ctx):
                 "path in several layers, a directory named *.bin), decided by TLC. impl->spec: random trees and histories in "
                 "which listings follow writes/create_dirs. Non-trivial = a listing that returns at least one entry or is "
                 "localized.")
-    ev, rec = fsc.run_fs(ctx, "c13", lambda e: e["op"] in fsc.LIST_OPS, owns, profile="c13")
+    # listings are also taken around every mutation, on one filesystem object: before it, after it, and after it on a
+    # clone made before it (what was listed earlier must not influence what is listed later)
+    ev, rec = fsc.run_fs(ctx, "c13", lambda e: e["op"] in fsc.LIST_OPS, owns, profile="c13", sandwich="c13",
+                         mutations=lambda e: (e["op"] == "write" and e["data"] == [1, 2, 3]) or e["op"] == "create_dir"
+                         or e["op"] == "write_archive")
     both = [e for e in ev + rec if e["op"] in fsc.LIST_OPS]
     ctx.extra["listing_calls"] = len(both)
     ctx.extra["listings_with_2plus_entries"] = sum(1 for e in both if e["res"].get("ok") and len(e["res"]["v"]) >= 2)
